@@ -6,6 +6,8 @@ def _fs_units():
         for t in (0, 1):
             cfgs.append(("char", n, 0, t, False, 4))
     cfgs += [("char", 256, 1, 0, False, 4), ("char", 256, 1, 1, False, 4), ("char", 300, 1, 1, False, 3)]
+    # capacities at the other boundary of a length encoding: 2^16 for char (size field), 2^16-1 / 2^16 for char16_t (packed / size field)
+    cfgs += [("char", 65536, 1, 1, False, 1), ("char16_t", 65535, 0, 1, True, 1), ("char16_t", 65536, 1, 0, True, 1)]
     for n in (8, 55):
         for t in (0, 1):
             cfgs.append(("char", n, 2, t, False, 4))
